@@ -48,12 +48,12 @@ theorem emitModSib_index_parts (c : Model.X86.Ctx) (pre : List (BitVec 8)) (ao :
     split <;> simp_all
 
 /-- model-side `[base64 + index64 * 2^sh + disp]` operand -/
-def memBaseIndex (size : Nat) (rb rx : BitVec 32) (sh : Nat) (d : BitVec 64) : Mem :=
-  { size := size, baseType := 6, baseId := rb.toNat, indexType := 6, indexId := rx.toNat, shift := sh, offset := d, seg := 0, bcst := 0, addrType := 0 }
+def memBaseIndex (size : Nat) (rb rx : BitVec 32) (sh : Nat) (d : BitVec 64) (seg : Nat := 0) : Mem :=
+  { size := size, baseType := 6, baseId := rb.toNat, indexType := 6, indexId := rx.toNat, shift := sh, offset := d, seg := seg, bcst := 0, addrType := 0 }
 
 /-- spec-side operand -/
-def memOpBaseIndex (size : Nat) (rb rx : BitVec 32) (sh : Nat) (d : BitVec 64) : MemOp :=
-  { size := size, baseKind := .gpq, baseId := rb.toNat, indexKind := .gpq, indexId := rx.toNat, shift := sh, disp := d, seg := 0, bcst := 0, addrType := 0 }
+def memOpBaseIndex (size : Nat) (rb rx : BitVec 32) (sh : Nat) (d : BitVec 64) (seg : Nat := 0) : MemOp :=
+  { size := size, baseKind := .gpq, baseId := rb.toNat, indexKind := .gpq, indexId := rx.toNat, shift := sh, disp := d, seg := seg, bcst := 0, addrType := 0 }
 
 theorem memInfo_gp64_gp64 : memInfo 6 6 = 0x0F#32 := by decide
 
@@ -69,19 +69,19 @@ theorem xMbx_eq_xR (opcode reg vvvvv rb rx : BitVec 32) (hb : rb < 16#32) (hx : 
     xMbx opcode reg vvvvv rb rx = xR opcode 0#32 reg vvvvv (xbOf rb rx) 0#32 := by
   simp only [xMbx, xR, xbOf]; bv_decide
 
-theorem emitVexEvexM_index_eq (c : Model.X86.Ctx) (opcode reg vvvvv rb rx : BitVec 32) (size sh : Nat) (d imm : BitVec 64) (n : Nat)
+theorem emitVexEvexM_index_eq (c : Model.X86.Ctx) (opcode reg vvvvv rb rx : BitVec 32) (size sh : Nat) (d imm : BitVec 64) (n : Nat) (seg : Nat)
     (hm : c.mode64 = true) (hpe : c.preferEvex = false) (hk : c.extraId = 0#32) (hvs : c.vsib = false) :
-    emitVexEvexM c opcode 0#32 (reg + (vvvvv <<< 7)) (memBaseIndex size rb rx sh d) imm n =
+    emitVexEvexM c opcode 0#32 (reg + (vvvvv <<< 7)) (memBaseIndex size rb rx sh d seg) imm n =
       (match vexEvexMPrefix c (if c.vexFlag then xMbx opcode reg vvvvv rb rx else xMbx opcode reg vvvvv rb rx ||| 0x80000000#32) opcode 0#32
-          (memBaseIndex size rb rx sh d) with
+          (memBaseIndex size rb rx sh d seg) with
        | .error e => .error e
-       | .ok v => emitModSib c v.1 0 v.2 0#32 ((reg + (vvvvv <<< 7)) &&& 7#32) rb rx 0x0F#32 (memBaseIndex size rb rx sh d) imm n false) := by
+       | .ok v => emitModSib c (segmentPrefix seg ++ v.1) (segmentPrefix seg).length v.2 0#32 ((reg + (vvvvv <<< 7)) &&& 7#32) rb rx 0x0F#32 (memBaseIndex size rb rx sh d seg) imm n false) := by
   unfold emitVexEvexM
   simp only [memBaseIndex, xMbx]
-  simp only [rtLabel, hk, hpe, hvs, memInfo_gp64_gp64, segmentPrefix, Model.X86.Ctx.aoMask, hm, oZMask, oER, oSAE, oVex, oVex3]
+  simp only [rtLabel, hk, hpe, hvs, memInfo_gp64_gp64, Model.X86.Ctx.aoMask, hm, oZMask, oER, oSAE, oVex, oVex3]
   simp only [BitVec.ofNat_toNat, BitVec.setWidth_eq, BitVec.zero_and, BitVec.zero_or, BitVec.or_zero, bne_self_eq_false, Bool.false_eq_true, ↓reduceIte,
     Bool.false_and, gt_iff_lt, Nat.lt_irrefl, Nat.not_lt_zero, BitVec.zero_shiftLeft, BitVec.and_zero, bind, Except.bind, Bool.not_false,
-    show (1 < 6) = True from by decide, show (0x0F#32 &&& 0x80#32 != 0#32) = false from by decide, List.nil_append, List.length_nil,
+    show (1 < 6) = True from by decide, show (0x0F#32 &&& 0x80#32 != 0#32) = false from by decide, List.nil_append, List.length_nil, List.append_nil,
     show ((0:Nat) != 0) = false from by decide]
   generalize vexEvexMPrefix c _ opcode 0#32 _ = r
   cases r <;> rfl
@@ -145,10 +145,11 @@ theorem evexCdOpcode_eq32 (opcode reg vvvvv xb : BitVec 32) (hr : reg < 32#32) (
 /-- the monitor's memory check on the index form's parts -/
 theorem idxParts_checkMem (ctx : Spec.X86.Ctx) (rule : Rule) (p : Parsed) (o7 rb rx s : BitVec 32) (size sh : Nat) (d : BitVec 64)
     (hm64 : ctx.mode64 = true) (ho : o7 < 8#32) (hb : rb < 16#32) (hx : rx < 16#32) (hx4 : rx ≠ 4#32) (hsh : sh < 4) (hs6 : s ≤ 6#32)
-    (F : MemFields p (idxMb o7 (memVariant (rb &&& 7#32) (d.truncate 32) s)) (some (idxSib (BitVec.ofNat 32 sh) (rx &&& 7#32) (rb &&& 7#32)))
+    (seg : Nat) (pfx : List (BitVec 8)) (h67 : pfx.contains 0x67#8 = false)
+    (F : MemFields p pfx (idxMb o7 (memVariant (rb &&& 7#32) (d.truncate 32) s)) (some (idxSib (BitVec.ofNat 32 sh) (rx &&& 7#32) (rb &&& 7#32)))
            (memDisp (d.truncate 32) s (memVariant (rb &&& 7#32) (d.truncate 32) s)) (rb.getLsbD 3) (rx.getLsbD 3))
     (hN : (if p.vexKind == 4 then disp8N rule p else 1) = 2 ^ s.toNat) :
-    checkMem ctx rule p (memOpBaseIndex size rb rx sh d) = .ok () := by
+    checkMem ctx rule p (memOpBaseIndex size rb rx sh d seg) = .ok () := by
   obtain ⟨hpm, hps, hpd, hpv, hpp, hpa, hpB, hpX⟩ := F
   have hr7 : rb &&& 7#32 < 8#32 := by bv_decide
   have hx7 : rx &&& 7#32 < 8#32 := by bv_decide
@@ -166,7 +167,7 @@ theorem idxParts_checkMem (ctx : Spec.X86.Ctx) (rule : Rule) (p : Parsed) (o7 rb
   have hmodne : bits (idxMb o7 v) 6 2 ≠ 3 := by rw [fmod]; omega
   have hbaseNum := regNum_base rb hb p.B hpB
   have hidxNum := regNum_base rx hx p.X hpX
-  refine checkMem_index64 ctx rule p (memOpBaseIndex size rb rx sh d) _ _ hm64 (by simp [hpp]) hpa hpm hmodne rfl rfl hps ?_ ?_ ?_ ?_ ?_ ?_
+  refine checkMem_index64 ctx rule p (memOpBaseIndex size rb rx sh d seg) _ _ hm64 (by rw [hpp]; exact h67) hpa hpm hmodne rfl rfl hps ?_ ?_ ?_ ?_ ?_ ?_
   · intro ⟨h0, h5⟩
     rw [fmod] at h0
     rw [fsb] at h5
@@ -181,16 +182,16 @@ theorem idxParts_checkMem (ctx : Spec.X86.Ctx) (rule : Rule) (p : Parsed) (o7 rb
   · exact fsc
   · show decodedDisp rule p = _
     simp only [decodedDisp, hpd, hpv, hN]
-    have : (memOpBaseIndex size rb rx sh d).disp.toNat % 2 ^ 32 = (d.truncate 32 : BitVec 32).toNat := by simp [memOpBaseIndex, BitVec.toNat_setWidth]
+    have : (memOpBaseIndex size rb rx sh d seg).disp.toNat % 2 ^ 32 = (d.truncate 32 : BitVec 32).toNat := by simp [memOpBaseIndex, BitVec.toNat_setWidth]
     rw [this]
     exact hmd
 
 /-- `EmitVexEvexM` on `[base64 + index64 * scale + disp]`: the complete output -/
-theorem emitVexEvexM_index_bytes (c : Model.X86.Ctx) (opcode reg vvvvv rb rx : BitVec 32) (size sh : Nat) (d imm : BitVec 64) (n : Nat)
+theorem emitVexEvexM_index_bytes (c : Model.X86.Ctx) (opcode reg vvvvv rb rx : BitVec 32) (size sh : Nat) (d imm : BitVec 64) (n : Nat) (seg : Nat)
     (hm : c.mode64 = true) (hpe : c.preferEvex = false) (hk : c.extraId = 0#32) (hvs : c.vsib = false)
     (hr : reg < 32#32) (hv : vvvvv < 32#32) (hb : rb < 16#32) (hx : rx < 16#32) (hx4 : rx ≠ 4#32) (hxop : opcode &&& 0x800#32 = 0#32) :
-    emitVexEvexM c opcode 0#32 (reg + (vvvvv <<< 7)) (memBaseIndex size rb rx sh d) imm n =
-      .ok ((if c.vexFlag = false ∨ xR opcode 0#32 reg vvvvv (xbOf rb rx) 0#32 &&& 0x00D78110#32 ≠ 0#32 then
+    emitVexEvexM c opcode 0#32 (reg + (vvvvv <<< 7)) (memBaseIndex size rb rx sh d seg) imm n =
+      .ok (segmentPrefix seg ++ ((if c.vexFlag = false ∨ xR opcode 0#32 reg vvvvv (xbOf rb rx) 0#32 &&& 0x00D78110#32 ≠ 0#32 then
               le32 (evexWord (xR opcode 0#32 reg vvvvv (xbOf rb rx) 0#32) opcode) ++ [opcode.truncate 8] ++
                 (idxMb ((reg + (vvvvv <<< 7)) &&& 7#32) (memVariant (rb &&& 7#32) (d.truncate 32) (cdShiftOf (evexCdOpcodeOf opcode))) ::
                   ((some (idxSib (BitVec.ofNat 32 sh) (rx &&& 7#32) (rb &&& 7#32))).toList ++
@@ -203,16 +204,16 @@ theorem emitVexEvexM_index_bytes (c : Model.X86.Ctx) (opcode reg vvvvv rb rx : B
               [0xC5#8, (vex2Byte (vexPrep (xR opcode 0#32 reg vvvvv (xbOf rb rx) 0#32) opcode 0#32)).truncate 8, opcode.truncate 8] ++
                 (idxMb ((reg + (vvvvv <<< 7)) &&& 7#32) (memVariant (rb &&& 7#32) (d.truncate 32) 0#32) ::
                   ((some (idxSib (BitVec.ofNat 32 sh) (rx &&& 7#32) (rb &&& 7#32))).toList ++ memDs rb (d.truncate 32) 0#32))) ++
-           emitImmediate imm n) := by
-  have hoff : (memBaseIndex size rb rx sh d).offLo32 = d.truncate 32 := rfl
-  have hshift : (memBaseIndex size rb rx sh d).shift = sh := rfl
+           emitImmediate imm n)) := by
+  have hoff : (memBaseIndex size rb rx sh d seg).offLo32 = d.truncate 32 := rfl
+  have hshift : (memBaseIndex size rb rx sh d seg).shift = sh := rfl
   have hxb : xbOf rb rx < 32#32 := by simp only [xbOf]; bv_decide
   have hcd := evexCdOpcode_eq32 opcode reg vvvvv (xbOf rb rx) hr hv hxb hxop
   simp only [evexCdOpcode] at hcd
   have hparts := fun (pre : List (BitVec 8)) (op : BitVec 32) =>
-    emitModSib_index_parts c pre 0 op 0#32 ((reg + (vvvvv <<< 7)) &&& 7#32) rb rx 0x0F#32 (memBaseIndex size rb rx sh d) imm n
+    emitModSib_index_parts c pre (segmentPrefix seg).length op 0#32 ((reg + (vvvvv <<< 7)) &&& 7#32) rb rx 0x0F#32 (memBaseIndex size rb rx sh d seg) imm n
       (by decide) (by decide) (by decide) hx4
-  rw [emitVexEvexM_index_eq c opcode reg vvvvv rb rx size sh d imm n hm hpe hk hvs]
+  rw [emitVexEvexM_index_eq c opcode reg vvvvv rb rx size sh d imm n seg hm hpe hk hvs]
   have hx31 : xMbx opcode reg vvvvv rb rx &&& 0x80180000#32 = 0#32 := by simp only [xMbx, extractLLMMMMM, kLL_Mask, kMM_Mask, oEvex]; bv_decide
   cases hvf : c.vexFlag
   · have hx20 : (xMbx opcode reg vvvvv rb rx ||| 0x80000000#32) &&& 0x00180000#32 = 0#32 := by bv_decide
@@ -245,17 +246,18 @@ theorem emitVexEvexM_index_bytes (c : Model.X86.Ctx) (opcode reg vvvvv rb rx : B
         rw [hparts, hoff, hshift, cdShift_cleared]
         simp [memDs]
 
-/-- the address form `[base64 + index64 * 2^sh + disp]`: ALL bases 0..15, ALL indexes 0..15 except rSP, ALL scales, ALL displacements -/
-theorem addrForm_index (c : Model.X86.Ctx) (ctx : Spec.X86.Ctx) (rb rx : BitVec 32) (size sh : Nat) (d : BitVec 64)
+/-- the address form `seg:[base64 + index64 * 2^sh + disp]`: ANY segment override, ALL bases 0..15, ALL indexes 0..15 except rSP, ALL scales, ALL displacements -/
+theorem addrForm_index (c : Model.X86.Ctx) (ctx : Spec.X86.Ctx) (rb rx : BitVec 32) (size sh : Nat) (d : BitVec 64) (seg : Nat)
     (hm : c.mode64 = true) (hpe : c.preferEvex = false) (hk : c.extraId = 0#32) (hvs : c.vsib = false)
     (hm64 : ctx.mode64 = true) (hb : rb < 16#32) (hx : rx < 16#32) (hx4 : rx ≠ 4#32) (hsh : sh < 4) :
-    AddrForm c ctx (memBaseIndex size rb rx sh d) (memOpBaseIndex size rb rx sh d) (xbOf rb rx)
+    AddrForm c ctx (memBaseIndex size rb rx sh d seg) (memOpBaseIndex size rb rx sh d seg) (segmentPrefix seg) (xbOf rb rx)
       (fun o7 s => idxMb o7 (memVariant (rb &&& 7#32) (d.truncate 32) s))
       (fun _ _ => some (idxSib (BitVec.ofNat 32 sh) (rx &&& 7#32) (rb &&& 7#32)))
       (fun _ s => memDs rb (d.truncate 32) s) := by
   have hr7 : rb &&& 7#32 < 8#32 := by bv_decide
   have hx7 : rx &&& 7#32 < 8#32 := by bv_decide
-  refine ⟨by simp only [xbOf]; bv_decide, rfl, rfl, rfl, rfl, ?_, ?_, ?_⟩
+  obtain ⟨hpl, hpc, h67⟩ := segPfx_ok seg (memOpBaseIndex size rb rx sh d seg) rfl rfl
+  refine ⟨by simp only [xbOf]; bv_decide, hpl, hpc, rfl, rfl, ?_, ?_, ?_⟩
   · intro o7 s ho
     have hvlt := memVariant_lt (rb &&& 7#32) (d.truncate 32) s
     have hv5 : memVariant (rb &&& 7#32) (d.truncate 32) s = 0 → rb &&& 7#32 ≠ 5#32 := by
@@ -283,18 +285,18 @@ theorem addrForm_index (c : Model.X86.Ctx) (ctx : Spec.X86.Ctx) (rb rx : BitVec 
     have h3 : (xbOf rb rx).getLsbD 3 = rb.getLsbD 3 := by simp only [xbOf]; bv_decide
     have h4 : (xbOf rb rx).getLsbD 4 = rx.getLsbD 3 := by simp only [xbOf]; bv_decide
     rw [h3, h4] at F
-    exact idxParts_checkMem ctx rule p o7 rb rx s size sh d hm64 ho hb hx hx4 hsh hs6 F hN
+    exact idxParts_checkMem ctx rule p o7 rb rx s size sh d hm64 ho hb hx hx4 hsh hs6 seg _ h67 F hN
   · intro opcode reg vvvvv imm n hr hv hxop
-    exact emitVexEvexM_index_bytes c opcode reg vvvvv rb rx size sh d imm n hm hpe hk hvs hr hv hb hx hx4 hxop
+    exact emitVexEvexM_index_bytes c opcode reg vvvvv rb rx size sh d imm n seg hm hpe hk hvs hr hv hb hx hx4 hxop
 
 /-! ### `[rip + disp32]` -/
 
 /-- model-side `[rip + disp]` operand (base type PC, register id 0 as `x86::rip`) -/
-def memRip (size : Nat) (d : BitVec 64) : Mem :=
-  { size := size, baseType := 31, baseId := 0, indexType := 0, indexId := 0, shift := 0, offset := d, seg := 0, bcst := 0, addrType := 0 }
+def memRip (size : Nat) (d : BitVec 64) (seg : Nat := 0) : Mem :=
+  { size := size, baseType := 31, baseId := 0, indexType := 0, indexId := 0, shift := 0, offset := d, seg := seg, bcst := 0, addrType := 0 }
 
-def memOpRip (size : Nat) (d : BitVec 64) : MemOp :=
-  { size := size, baseKind := .rip, baseId := 0, indexKind := .none, indexId := 0, shift := 0, disp := d, seg := 0, bcst := 0, addrType := 0 }
+def memOpRip (size : Nat) (d : BitVec 64) (seg : Nat := 0) : MemOp :=
+  { size := size, baseKind := .rip, baseId := 0, indexKind := .none, indexId := 0, shift := 0, disp := d, seg := seg, bcst := 0, addrType := 0 }
 
 theorem memInfo_rip : memInfo 31 0 = 0x2C#32 := by decide
 
@@ -314,28 +316,28 @@ theorem emitModSib_rip_parts (c : Model.X86.Ctx) (pre : List (BitVec 8)) (ao : N
   unfold emitModSib
   simp [kX86MemInfo_Index, kX86MemInfo_67H_X86, kX86MemInfo_BaseGp, kX86MemInfo_BaseLabel, kX86MemInfo_BaseRip, hm, ripMb]
 
-theorem emitVexEvexM_rip_eq (c : Model.X86.Ctx) (opcode reg vvvvv : BitVec 32) (size : Nat) (d imm : BitVec 64) (n : Nat)
+theorem emitVexEvexM_rip_eq (c : Model.X86.Ctx) (opcode reg vvvvv : BitVec 32) (size : Nat) (d imm : BitVec 64) (n : Nat) (seg : Nat)
     (hm : c.mode64 = true) (hpe : c.preferEvex = false) (hk : c.extraId = 0#32) (hvs : c.vsib = false) :
-    emitVexEvexM c opcode 0#32 (reg + (vvvvv <<< 7)) (memRip size d) imm n =
-      (match vexEvexMPrefix c (if c.vexFlag then xMb opcode reg vvvvv 0#32 else xMb opcode reg vvvvv 0#32 ||| 0x80000000#32) opcode 0#32 (memRip size d) with
+    emitVexEvexM c opcode 0#32 (reg + (vvvvv <<< 7)) (memRip size d seg) imm n =
+      (match vexEvexMPrefix c (if c.vexFlag then xMb opcode reg vvvvv 0#32 else xMb opcode reg vvvvv 0#32 ||| 0x80000000#32) opcode 0#32 (memRip size d seg) with
        | .error e => .error e
-       | .ok v => emitModSib c v.1 0 v.2 0#32 ((reg + (vvvvv <<< 7)) &&& 7#32) 0#32 0#32 0x2C#32 (memRip size d) imm n false) := by
+       | .ok v => emitModSib c (segmentPrefix seg ++ v.1) (segmentPrefix seg).length v.2 0#32 ((reg + (vvvvv <<< 7)) &&& 7#32) 0#32 0#32 0x2C#32 (memRip size d seg) imm n false) := by
   unfold emitVexEvexM
   simp only [memRip, xMb]
-  simp only [rtLabel, hk, hpe, hvs, memInfo_rip, segmentPrefix, Model.X86.Ctx.aoMask, hm, oZMask, oER, oSAE, oVex, oVex3]
+  simp only [rtLabel, hk, hpe, hvs, memInfo_rip, Model.X86.Ctx.aoMask, hm, oZMask, oER, oSAE, oVex, oVex3]
   simp only [BitVec.ofNat_toNat, BitVec.setWidth_eq, BitVec.zero_and, BitVec.zero_or, BitVec.or_zero, bne_self_eq_false, Bool.false_eq_true, ↓reduceIte,
     Bool.false_and, gt_iff_lt, Nat.lt_irrefl, Nat.not_lt_zero, BitVec.zero_shiftLeft, BitVec.and_zero, bind, Except.bind, Bool.not_false,
-    show (1 < 31) = True from by decide, show (0x2C#32 &&& 0x80#32 != 0#32) = false from by decide, List.nil_append, List.length_nil,
+    show (1 < 31) = True from by decide, show (0x2C#32 &&& 0x80#32 != 0#32) = false from by decide, List.nil_append, List.length_nil, List.append_nil,
     show ((0:Nat) != 0) = false from by decide, BitVec.ofNat_eq_ofNat]
   generalize vexEvexMPrefix c _ opcode 0#32 _ = r
   cases r <;> rfl
 
-/-- the address form `[rip + disp32]`: ALL displacements (the encoder uses the low 32 bits) -/
-theorem addrForm_rip (c : Model.X86.Ctx) (ctx : Spec.X86.Ctx) (size : Nat) (d : BitVec 64)
+/-- the address form `seg:[rip + disp32]`: ANY segment override, ALL displacements (the encoder uses the low 32 bits) -/
+theorem addrForm_rip (c : Model.X86.Ctx) (ctx : Spec.X86.Ctx) (size : Nat) (d : BitVec 64) (seg : Nat)
     (hm : c.mode64 = true) (hpe : c.preferEvex = false) (hk : c.extraId = 0#32) (hvs : c.vsib = false) (hm64 : ctx.mode64 = true) :
-    AddrForm c ctx (memRip size d) (memOpRip size d) 0#32 (fun o7 _ => ripMb o7) (fun _ _ => none) (fun _ _ => le32 (d.truncate 32)) := by
-  refine ⟨by decide, ?_, rfl, rfl, rfl, ?_, ?_, ?_⟩
-  · simp [wantedAddrSize, memOpRip]
+    AddrForm c ctx (memRip size d seg) (memOpRip size d seg) (segmentPrefix seg) 0#32 (fun o7 _ => ripMb o7) (fun _ _ => none) (fun _ _ => le32 (d.truncate 32)) := by
+  obtain ⟨hpl, hpc, h67⟩ := segPfx_ok seg (memOpRip size d seg) rfl (by simp [wantedAddrSize, memOpRip])
+  refine ⟨by decide, hpl, hpc, rfl, rfl, ?_, ?_, ?_⟩
   · intro o7 s ho
     obtain ⟨f1, f2, f3⟩ := ripMb_factsBV o7 ho
     refine ⟨by rw [f1]; omega, by simp [f2], ?_, f3⟩
@@ -343,15 +345,15 @@ theorem addrForm_rip (c : Model.X86.Ctx) (ctx : Spec.X86.Ctx) (size : Nat) (d : 
   · intro rule p o7 s ho hs6 F hN
     obtain ⟨hpm, hps, hpd, hpv, hpp, hpa, hpB, hpX⟩ := F
     obtain ⟨f1, f2, f3⟩ := ripMb_factsBV o7 ho
-    refine checkMem_rip ctx rule p (memOpRip size d) _ hm64 (by simp [hpp]) hpa hpm f1 f2 rfl rfl hps (by rw [hpd]; rfl) ?_
+    refine checkMem_rip ctx rule p (memOpRip size d seg) _ hm64 (by rw [hpp]; exact h67) hpa hpm f1 f2 rfl rfl hps (by rw [hpd]; rfl) ?_
     rw [hpv, leNat_le32]
     simp [memOpRip, BitVec.toNat_setWidth]
   · intro opcode reg vvvvv imm n hr hv hxop
-    have hoff : (memRip size d).offLo32 = d.truncate 32 := rfl
+    have hoff : (memRip size d seg).offLo32 = d.truncate 32 := rfl
     have h0 : (0#32 : BitVec 32) < 16#32 := by decide
     have hcd := evexCdOpcode_eq32 opcode reg vvvvv 0#32 hr hv (by decide) hxop
     simp only [evexCdOpcode] at hcd
-    rw [emitVexEvexM_rip_eq c opcode reg vvvvv size d imm n hm hpe hk hvs]
+    rw [emitVexEvexM_rip_eq c opcode reg vvvvv size d imm n seg hm hpe hk hvs]
     have hx31 : xMb opcode reg vvvvv 0#32 &&& 0x80180000#32 = 0#32 := by simp only [xMb, extractLLMMMMM, kLL_Mask, kMM_Mask, oEvex]; bv_decide
     cases hvf : c.vexFlag
     · have hx20 : (xMb opcode reg vvvvv 0#32 ||| 0x80000000#32) &&& 0x00180000#32 = 0#32 := by bv_decide
@@ -359,7 +361,7 @@ theorem addrForm_rip (c : Model.X86.Ctx) (ctx : Spec.X86.Ctx) (size : Nat) (d : 
       simp only [Bool.false_eq_true, ↓reduceIte, true_or]
       rw [vexEvexMPrefix_nobcstX c _ opcode _ hx20, if_pos hne, evexWord_forced, xMb_eq_xR opcode reg vvvvv 0#32 h0]
       simp only []
-      rw [emitModSib_rip_parts c _ 0 _ 0#32 _ 0#32 0#32 _ imm n hm, hoff]
+      rw [emitModSib_rip_parts c _ _ _ 0#32 _ 0#32 0#32 _ imm n hm, hoff]
       simp
     · have hx20 : xMb opcode reg vvvvv 0#32 &&& 0x00180000#32 = 0#32 := by bv_decide
       have hc : (xMb opcode reg vvvvv 0#32 &&& 0x80D78110#32 ≠ 0#32) ↔ (xMb opcode reg vvvvv 0#32 &&& 0x00D78110#32 ≠ 0#32) := by
@@ -371,17 +373,17 @@ theorem addrForm_rip (c : Model.X86.Ctx) (ctx : Spec.X86.Ctx) (size : Nat) (d : 
         rw [xMb_eq_xR opcode reg vvvvv 0#32 h0] at hev ⊢
         rw [if_pos hev]
         simp only []
-        rw [emitModSib_rip_parts c _ 0 _ 0#32 _ 0#32 0#32 _ imm n hm, hoff]
+        rw [emitModSib_rip_parts c _ _ _ 0#32 _ 0#32 0#32 _ imm n hm, hoff]
         simp
       · rw [if_neg (fun h => hev (hc.mp h))]
         rw [xMb_eq_xR opcode reg vvvvv 0#32 h0] at hev ⊢
         rw [if_neg hev]
         by_cases hv3 : vexPrep (xR opcode 0#32 reg vvvvv 0#32 0#32) opcode 0#32 &&& 0x8000807E#32 ≠ 0#32
         · simp only [if_pos hv3]
-          rw [emitModSib_rip_parts c _ 0 _ 0#32 _ 0#32 0#32 _ imm n hm, hoff, vex3Word_masked]
+          rw [emitModSib_rip_parts c _ _ _ 0#32 _ 0#32 0#32 _ imm n hm, hoff, vex3Word_masked]
           simp
         · simp only [if_neg hv3]
-          rw [emitModSib_rip_parts c _ 0 _ 0#32 _ 0#32 0#32 _ imm n hm, hoff]
+          rw [emitModSib_rip_parts c _ _ _ 0#32 _ 0#32 0#32 _ imm n hm, hoff]
           simp
 
 end AsmjitVerif.Props.C01
